@@ -40,14 +40,14 @@ Section Total.
   Lemma inter_pow_no_panic ps : no_panic (@inter_pow T NT ps).
   Proof.
     unfold inter_pow. intros w.
-    destruct (contains_char c_slash ps); [destruct (parse_fraction ps)|destruct (parse_dec ps)];
+    destruct (contains_char c_slash ps); [destruct (parse_fraction ps)|destruct (parse_dec_finite ps)];
       discriminate.
   Qed.
   Lemma inter_coeff_no_panic cs : no_panic (@inter_coeff T NT cs).
   Proof.
     unfold inter_coeff. intros w. destruct cs; [discriminate|].
     destruct (str_eqb _ _); [discriminate|].
-    destruct (contains_char _ _); [destruct (parse_fraction _)|destruct (parse_dec _)]; discriminate.
+    destruct (contains_char _ _); [destruct (parse_fraction _)|destruct (parse_dec_finite _)]; discriminate.
   Qed.
   Lemma scan_vars_no_panic fuel : forall s acc, no_panic (@scan_vars T NT fuel s acc).
   Proof.
@@ -66,8 +66,8 @@ Section Total.
     pose proof (inter_coeff_no_panic cs) as Hc.
     destruct (inter_coeff cs) as [c|e|w']; [|discriminate|exfalso; exact (Hc w' eq_refl)].
     pose proof (scan_vars_no_panic (length rest) rest [] ) as Hv.
-    destruct (scan_vars (length rest) rest []) as [vs|e|w']; [discriminate|discriminate|].
-    exfalso; exact (Hv w' eq_refl).
+    destruct (scan_vars (length rest) rest []) as [vs|e|w']; [|discriminate|exfalso; exact (Hv w' eq_refl)].
+    destruct (forallb _ _); discriminate.
   Qed.
 
   (* C16, multivariate half: every string, every character classification *)
@@ -233,6 +233,18 @@ Proof. rewrite (Rpowf_integral x 1). unfold powerRZ. rewrite Pos2Nat.inj_1. cbn 
 
 Local Close Scope R_scope.
 
+(* the finiteness checks are no-ops in exact arithmetic *)
+Lemma finite_R : forall x : R, @finite R RNum x = true.
+Proof.
+  intros x. unfold finite. cbn [neqb nsub n0 RNum]. apply Reqb_true. unfold Rminus. apply Rplus_opp_r.
+Qed.
+Lemma is_finite_R : forall x : R, @is_finite R RNum x = true.
+Proof. exact finite_R. Qed.
+Lemma is_finite_Z : forall x : Z, @is_finite Z ZNum x = true.
+Proof. intros x. unfold is_finite. cbn [neqb nsub n0 ZNum]. rewrite Z.sub_diag. reflexivity. Qed.
+Lemma parse_dec_finite_R (s : str) : @parse_dec_finite R RNum s = parse_dec s.
+Proof. unfold parse_dec_finite. destruct (parse_dec s); [rewrite is_finite_R|]; reflexivity. Qed.
+
 (* ============================================================================ *)
 (*  3. character classes of the rendered language                                *)
 (* ============================================================================ *)
@@ -325,22 +337,34 @@ Section Accept.
       cbn [parse_dec]. rewrite (decch_not c c_minus Hc eq_refl). exact P.
   Qed.
 
-  Lemma wf_frac_parts a b : @wf_frac T NT a b = true ->
-    wf_dec a = true /\ wf_dec b = true /\ nneb (@dec_val T NT b) n0 = true.
+  (* the model's finiteness test is the grammar's *)
+  Lemma is_finite_finite (x : T) : is_finite x = finite x.
+  Proof. reflexivity. Qed.
+
+  Lemma wf_frac_parts neg a b : @wf_frac T NT neg a b = true ->
+    wf_dec a = true /\ wf_dec b = true /\ nneb (@dec_val T NT b) n0 = true /\
+    finite (@dec_val T NT b) = true /\ finite (ndiv (@signed T NT neg (dec_val a)) (dec_val b)) = true.
   Proof.
-    unfold wf_frac. intros H. apply andb_prop in H as [H H3]. apply andb_prop in H as [H1 H2]. auto.
+    unfold wf_frac. intros H. apply andb_prop in H as [H H5]. apply andb_prop in H as [H H4].
+    apply andb_prop in H as [H H3]. apply andb_prop in H as [H1 H2]. auto.
   Qed.
 
-  Lemma parse_fraction_render neg a b : @wf_frac T NT a b = true ->
+  Lemma parse_dec_finite_render neg d : wf_dec d = true -> finite (@signed T NT neg (dec_val d)) = true ->
+    parse_dec_finite (sign_str neg ++ render_dec d) = Some (@signed T NT neg (dec_val d)).
+  Proof.
+    intros H Hf. unfold parse_dec_finite, is_finite. unfold finite in Hf. rewrite (parse_dec_render neg d H), Hf. reflexivity.
+  Qed.
+
+  Lemma parse_fraction_render neg a b : @wf_frac T NT neg a b = true ->
     parse_fraction (sign_str neg ++ render_dec a ++ c_slash :: render_dec b)
     = Some (ndiv (@signed T NT neg (dec_val a)) (dec_val b)).
   Proof.
-    intros H. apply wf_frac_parts in H as (Ha & Hb & Hn). unfold parse_fraction.
+    intros H. apply wf_frac_parts in H as (Ha & Hb & Hn & Hfb & Hfq). unfold parse_fraction.
     rewrite app_assoc, split_on_app.
     - rewrite split_on_lacks by (apply render_dec_lacks; [exact Hb|reflexivity]).
       rewrite (parse_dec_render neg a Ha).
-      pose proof (parse_dec_render false b Hb) as Pb. cbn [sign_str app signed] in Pb. rewrite Pb, Hn.
-      reflexivity.
+      pose proof (parse_dec_render false b Hb) as Pb. cbn [sign_str app signed] in Pb.
+      unfold finite in Hfb, Hfq. unfold is_finite. rewrite Pb, Hn, Hfb, Hfq. reflexivity.
     - rewrite lacks_app, (render_dec_lacks a c_slash Ha eq_refl). destruct neg; reflexivity.
   Qed.
 
@@ -372,14 +396,14 @@ Section Accept.
     - apply scan_coeff_app; assumption.
   Qed.
 
-  Definition wf_ocoef (oc : option coef) : bool :=
-    match oc with None => true | Some c => @wf_coef T NT c end.
+  Definition wf_ocoef (neg : bool) (oc : option coef) : bool :=
+    match oc with None => true | Some c => @wf_coef T NT neg c end.
 
   Lemma inter_coeff_cons c r : @inter_coeff T NT (c :: r) =
     if str_eqb (c :: r) [c_minus] then Ok (nneg n1)
     else if contains_char c_slash (c :: r) then
       match parse_fraction (c :: r) with Some v => Ok v | None => Err EInvalidFraction end
-    else match parse_dec (c :: r) with Some v => Ok v | None => Err EInvalidCoefficient end.
+    else match parse_dec_finite (c :: r) with Some v => Ok v | None => Err EInvalidCoefficient end.
   Proof. reflexivity. Qed.
 
   Lemma signed_dec_shape neg d : wf_dec d = true ->
@@ -391,17 +415,18 @@ Section Accept.
     - eexists _, _. split; [reflexivity|]. cbn. rewrite (decch_not c c_minus Hc eq_refl). reflexivity.
   Qed.
 
-  Lemma inter_coeff_render neg oc : wf_ocoef oc = true ->
+  Lemma inter_coeff_render neg oc : wf_ocoef neg oc = true ->
     inter_coeff (sign_str neg ++ render_coef oc) = Ok (@coef_val T NT neg oc).
   Proof.
     intros H. destruct oc as [[d|a b]|]; cbn [wf_ocoef wf_coef] in H; cbn [render_coef coef_val].
-    - destruct (signed_dec_shape neg d H) as (c & r & E & Hs).
-      pose proof (parse_dec_render neg d H) as P. rewrite E in P |- *.
+    - apply andb_prop in H as [H Hfd].
+      destruct (signed_dec_shape neg d H) as (c & r & E & Hs).
+      pose proof (parse_dec_finite_render neg d H Hfd) as P. rewrite E in P |- *.
       rewrite inter_coeff_cons, Hs, P.
       rewrite contains_lacks. rewrite <- E, lacks_app, (render_dec_lacks d c_slash H eq_refl).
       destruct neg; reflexivity.
     - pose proof (parse_fraction_render neg a b H) as P.
-      apply wf_frac_parts in H as (Ha & Hb & Hn).
+      apply wf_frac_parts in H as (Ha & Hb & Hn & _ & _).
       destruct (signed_dec_shape neg a Ha) as (c & r & E & Hs).
       rewrite app_assoc in P |- *. rewrite E in P |- *. cbn [app] in P |- *.
       rewrite inter_coeff_cons, P.
@@ -433,7 +458,8 @@ Section Accept.
   Lemma render_expo_powch e : @wf_expo T NT e = true -> forallb powch (render_expo e) = true.
   Proof.
     destruct e as [neg [d|a b]]; unfold wf_expo, render_expo; cbn [fst snd render_emag]; intros H.
-    - rewrite forallb_app, (decch_powch _ (render_dec_decch d H)). destruct neg; reflexivity.
+    - apply andb_prop in H as [H _].
+      rewrite forallb_app, (decch_powch _ (render_dec_decch d H)). destruct neg; reflexivity.
     - apply wf_frac_parts in H as (Ha & Hb & _).
       rewrite !forallb_app. cbn [forallb].
       rewrite (decch_powch _ (render_dec_decch a Ha)), (decch_powch _ (render_dec_decch b Hb)).
@@ -444,9 +470,10 @@ Section Accept.
   Proof.
     destruct e as [neg [d|a b]]; unfold wf_expo, render_expo, expo_val, inter_pow;
       cbn [fst snd render_emag]; intros H.
-    - rewrite contains_lacks, lacks_app, (render_dec_lacks d c_slash H eq_refl).
+    - apply andb_prop in H as [H Hfd].
+      rewrite contains_lacks, lacks_app, (render_dec_lacks d c_slash H eq_refl).
       replace (lacks c_slash (sign_str neg)) with true by (destruct neg; reflexivity). cbn [andb negb].
-      rewrite (parse_dec_render neg d H). reflexivity.
+      rewrite (parse_dec_finite_render neg d H Hfd). reflexivity.
     - rewrite (parse_fraction_render neg a b H).
       rewrite app_assoc, contains_app. cbn. rewrite orb_true_r. reflexivity.
   Qed.
@@ -530,35 +557,41 @@ Section Accept.
     - rewrite H, orb_true_r. reflexivity.
   Qed.
 
-  Lemma render_coef_coefch oc : wf_ocoef oc = true -> forallb coefch (render_coef oc) = true.
+  Lemma render_coef_coefch neg oc : wf_ocoef neg oc = true -> forallb coefch (render_coef oc) = true.
   Proof.
     destruct oc as [[d|a b]|]; cbn [wf_ocoef wf_coef render_coef]; intros H.
-    - apply decch_coefch, render_dec_decch, H.
+    - apply andb_prop in H as [H _]. apply decch_coefch, render_dec_decch, H.
     - apply wf_frac_parts in H as (Ha & Hb & _). rewrite forallb_app. cbn [forallb].
       rewrite (decch_coefch _ (render_dec_decch a Ha)), (decch_coefch _ (render_dec_decch b Hb)).
       unfold coefch at 1. change (N.eqb c_slash c_slash) with true. rewrite orb_true_r. reflexivity.
     - reflexivity.
   Qed.
 
-  Lemma wf_term_parts t : @wf_term T NT t = true ->
-    wf_ocoef (fst t) = true /\ forallb (@wf_var T NT) (snd t) = true /\ (fst t <> None \/ snd t <> []).
+  Lemma wf_term_parts x : @wf_term T NT x = true ->
+    wf_ocoef (fst x) (fst (snd x)) = true /\ forallb (@wf_var T NT) (snd (snd x)) = true /\
+    (fst (snd x) <> None \/ snd (snd x) <> []) /\
+    forallb (fun vp => finite (snd vp)) (t_vars (@term_of T NT x)) = true.
   Proof.
-    unfold wf_term. intros H. apply andb_prop in H as [H H3]. apply andb_prop in H as [H1 H2].
-    split; [exact H1|]. split; [exact H2|].
-    destruct (fst t); [left; discriminate|]. destruct (snd t); [discriminate|right; discriminate].
+    unfold wf_term. intros H. apply andb_prop in H as [H H4]. apply andb_prop in H as [H H3].
+    apply andb_prop in H as [H1 H2].
+    split; [exact H1|]. split; [exact H2|]. split; [|exact H4].
+    destruct (fst (snd x)); [left; discriminate|]. destruct (snd (snd x)); [discriminate|right; discriminate].
   Qed.
 
-  Lemma inter_term_render x : @wf_term T NT (snd x) = true ->
+  Lemma inter_term_render x : @wf_term T NT x = true ->
     inter_term U (render_signed x) = Ok (@term_of T NT x).
   Proof.
-    destruct x as [neg [oc vs]]. cbn [snd]. intros H.
-    apply wf_term_parts in H as (Hc & Hv & _). cbn [fst snd] in Hc, Hv.
+    intros H. apply wf_term_parts in H as (Hc & Hv & _ & Hfin).
+    destruct x as [neg [oc vs]]. cbn [fst snd] in Hc, Hv.
     unfold inter_term, render_signed, render_term. cbn [fst snd].
     rewrite scan_coeff_signed.
     - rewrite (inter_coeff_render neg oc Hc).
       rewrite (scan_vars_render vs (length (render_vars vs)) [] Hv (le_n _)). cbn [rev app].
-      rewrite merge_sort_canon. reflexivity.
-    - apply render_coef_coefch. exact Hc.
+      rewrite merge_sort_canon. unfold term_of in Hfin. cbn [t_vars fst snd] in Hfin.
+      replace (forallb (fun vp : name * T => is_finite (snd vp)) (canon_vars (map var_val vs))) with true
+        by (symmetry; exact Hfin).
+      reflexivity.
+    - apply (render_coef_coefch neg). exact Hc.
     - pose proof (render_vars_head vs Hv) as Hh. unfold coef_stop.
       destruct (render_vars vs) as [|c r]; [exact I|].
       unfold coefch. rewrite (proj2 HU c Hh). rewrite !(letter_not c _ Hh) by cclia.
